@@ -1129,6 +1129,7 @@ class CircuitDAG(CircuitBase):
             reg_type = self.dag.nodes[node]["op"].reg_type
             register = self.dag.nodes[node]["op"].register
             gate_list = []
+            noise_list = []  # the noise model of each gate in gate_list
 
             in_edges = self.dag.in_edges(nbunch=node, keys=True)
             next_node = self.edge_from_reg(in_edges, f"{reg_type}{register}")[0]
@@ -1144,19 +1145,41 @@ class CircuitDAG(CircuitBase):
                     op = node_info["op"]
 
                     if isinstance(op, ops.OneQubitGateWrapper):
+                        if not isinstance(op.noise, list):
+                            # a single noise model acting before / after the whole wrapper cannot be split over
+                            # its gates: keep this wrapper as it is and close the current run of gates
+                            if gate_list:
+                                out_edges = self.dag.out_edges(nbunch=node, keys=True)
+                                insert_edge = self.edge_from_reg(
+                                    out_edges, f"{reg_type}{register}"
+                                )
+                                self.insert_at(
+                                    ops.OneQubitGateWrapper(
+                                        gate_list, register, reg_type, noise=noise_list
+                                    ),
+                                    [insert_edge],
+                                )
+                                gate_list = []
+                                noise_list = []
+                            continue
                         gate_list += op.operations
+                        noise_list += op.noise
                     else:
                         gate_list.append(op.__class__)
+                        noise_list.append(op.noise)
                     self.remove_op(node)
                 if next_node not in self.node_dict["one-qubit"] and gate_list:
                     # insert new op here
                     out_edges = self.dag.out_edges(nbunch=next_node, keys=True)
                     insert_edge = self.edge_from_reg(out_edges, f"{reg_type}{register}")
                     self.insert_at(
-                        ops.OneQubitGateWrapper(gate_list, register, reg_type),
+                        ops.OneQubitGateWrapper(
+                            gate_list, register, reg_type, noise=noise_list
+                        ),
                         [insert_edge],
                     )
                     gate_list = []
+                    noise_list = []
 
     def assign_noise(self, noise_model_map):
         """
